@@ -10,6 +10,7 @@ import re
 from paths import refine_cuts, region_uncovered
 from common import for_loops, loop_left_early, exit_desc, short, field_calls, park_nodes, removal_discharged, derives_from_field
 import guards
+from common import nested_closures
 
 EXPLANATION = ("Obligation-container rules over all MIR CFG paths of RequestResponseProtocol: each request context taken out of "
                "pending_dials / pending_outbound / active is, on every path, turned into an event to the user or moved into another "
@@ -283,7 +284,7 @@ def r13_8(ctx, fx):
     fn = ctx.fn(fx, "protocol::transport_service::TransportService::on_connection_closed", "R13.8")
     fails = False
     if fn is not None:
-        holders = [fn] + [fx.fn(k) for k in sorted(fx.find("^" + re.escape(fn.key) + r"::\{closure#\d+\}"))]
+        holders = [fn] + nested_closures(fx, fn)
         fails = any(h.aggregates(r"TransportEvent$", "SubstreamOpenFailure") for h in holders)
     ctx.ob("R13.8", "pending-outbound-open-is-bounded-when-its-connection-dies-beside-a-second-one", timers or fails, cfg=fx.cfg,
            site=fn.site(fn.entry) if fn is not None else "",
